@@ -447,6 +447,56 @@ def feasible_paths(repo: Repo, fi: FuncInfo, cfg: CFG, base: Facts | None = None
             yield path, facts
 
 
+def path_facts(repo: Repo, fi: FuncInfo, cfg: CFG, path: list[tuple[int, str]], base: Facts | None = None,
+               expand_locals: bool = False) -> Facts | None:
+    """facts implied by the branch decisions along one path; boolean/None constants assigned to locals are
+    tracked (flag variables), other stores forget what was known about the name.  None = path infeasible."""
+    facts = base.clone() if base is not None else Facts(repo, fi, {}, expand_locals=expand_locals)
+    for i, (nid, _lab) in enumerate(path):
+        n = cfg.nodes[nid]
+        if n.kind == "test" and i + 1 < len(path):
+            lab = path[i + 1][1]
+            if lab in ("true", "false"):
+                facts.assume(n.ast, lab == "true")
+                if not facts.consistent:
+                    return None
+        elif n.kind == "stmt" and isinstance(n.ast, (ast.Assign, ast.AnnAssign, ast.AugAssign)):
+            tgts = n.ast.targets if isinstance(n.ast, ast.Assign) else [n.ast.target]
+            val = getattr(n.ast, "value", None)
+            for t in tgts:
+                if isinstance(t, ast.Name):
+                    for k in list(facts.env):
+                        if _mentions(k, t.id):
+                            del facts.env[k]
+                    if isinstance(n.ast, (ast.Assign, ast.AnnAssign)) and isinstance(val, ast.Constant) and (isinstance(val.value, bool) or val.value is None):
+                        facts.env[t.id] = bool(val.value)
+                        if val.value is None:
+                            facts.env[f"{t.id} is None"] = True
+                    elif isinstance(n.ast, ast.Assign) and isinstance(val, ast.Name) and val.id in facts.env:
+                        facts.env[t.id] = facts.env[val.id]
+    return facts
+
+
+def must_pass_feasible(repo: Repo, fi: FuncInfo, cfg: CFG, starts, exits, through: set[int], through_edges: set = frozenset(),
+                       limit: int = 6000) -> list[tuple[int, str]] | None:
+    """like CFG.must_pass, but an offending path only counts if it is feasible w.r.t. boolean flag
+    variables and repeated tests (restructurings with `done = True` flags / one-trip wrappers)."""
+    exits = set(exits)
+    if cfg.must_pass(starts, exits, through, through_edges) is None:
+        return None
+    for s in starts:
+        if s in through:
+            continue
+        for path in cfg.paths_between(s, exits, limit=limit, avoid=through):
+            if path[-1][0] not in exits:
+                continue
+            if any((a, b, lab) in through_edges for (a, _l), (b, lab) in zip(path, path[1:])):
+                continue
+            if path_facts(repo, fi, cfg, path) is not None:
+                return path
+    return None
+
+
 def _kill(repo: Repo, fi: FuncInfo, facts: Facts, st: ast.AST) -> None:
     targets = []
     if isinstance(st, ast.Assign):
